@@ -1,8 +1,23 @@
 (* C16 correspondence: op lists driven through the real LRURevisionCache / RevisionCacheOrchestrator /
    ShardedLRURevisionCache by harness/db/verif_c16_test.go are re-run here on the model; after every op the
    returned revision (interned content) or error kind, the eviction flag, the two gauges and the LRU key
-   order of every shard must agree. *)
-From SG Require Export Base.Prelude Base.Bytes C16.RevCache C16.RevCacheSharded.
+   order of every shard must agree.
+
+   CDelta: the same for the orchestrator WITH its delta cache (RevCacheDelta.v): UpdateDelta / GetWithDelta
+   interleaved with the revision-cache calls; additionally the attached delta, DeltaCacheNumItems and the
+   key order of the delta LRU list are compared after every op.
+
+   CSched: STEP-LEVEL correspondence of the interleaving model (RevCacheStep.v over RevCacheConc.v).  The
+   harness runs real goroutines, parks them where the code can be parked from outside (inside the loader,
+   on value.lock, on LRURevisionCache.lock) and emits the schedule as the list of atomic steps the code
+   took, each named; the model must accept every step under that name, and at every point where all
+   goroutines are finished or parked the item gauge, the byte counter, the cached values (key, memState,
+   itemBytes, body present, error present), the state of every goroutine (finished / inside the loader /
+   waiting for value.lock / waiting for the cache lock), the number of backing-store loads per key and
+   the delta cache must agree; so must every result a Get returned (revision or error, and its flag) and
+   every Peek. *)
+From SG Require Export Base.Prelude Base.Bytes C16.RevCache C16.RevCacheSharded C16.RevCacheConc C16.RevCacheDelta
+  C16.RevCacheStep.
 Open Scope N_scope.
 
 Record obs := Ob {
@@ -13,9 +28,30 @@ Record obs := Ob {
 
 (* cfgs: one config per shard (1 shard = plain cache); ldt/actt: the scripted backing store (absent = 404);
    ops: (shard the real code routed the call to, op) *)
+(* after one call on the orchestrator with delta cache *)
+Record dobs := DOb {
+  d_res : res; d_flag : bool; d_delta : option N;     (* result, flag, totalDeltaBytes of the attached delta *)
+  d_items : Z; d_ditems : Z; d_bytes : Z;             (* RevisionCacheNumItems, DeltaCacheNumItems, RevisionCacheTotalMemory *)
+  d_keys : list key; d_dkeys : list dkey              (* both LRU lists, front to back *)
+}.
+
+(* one element of an emitted schedule *)
+Inductive sstep :=
+| SAct (a : eact)
+| SObs (items bytes : Z)
+       (vals : list (key * N * N * bool * bool))      (* cached values sorted by key: memState, itemBytes, body?, err? *)
+       (thrs : list N)                                (* per goroutine: 0 finished, 1 in the loader, 2 waits for value.lock, 3 waits for the cache lock *)
+       (loads : list (key * N))                       (* backing-store loads so far, per key (keys with none omitted) *)
+       (ndeltas : Z) (deltas : list (dkey * N))       (* DeltaCacheNumItems, cached deltas sorted by key *)
+| SPeekR (k : key) (r : res)
+| SRes (t : nat) (r : res) (flag : bool).
+
 Inductive case :=
 | CSeq (cfgs : list config) (ldt : list (key * lres)) (actt : list (doc * ares))
-       (ops : list (N * op)) (observed : list obs).
+       (ops : list (N * op)) (observed : list obs)
+| CDelta (cfg : config) (ldt : list (key * lres)) (actt : list (doc * ares))
+       (ops : list dop) (observed : list dobs)
+| CSched (nthr : nat) (ksz : list (key * N)) (ldt : list (key * lres)) (steps : list sstep).
 
 Definition C (id sz : N) : content := mkC id sz.
 
@@ -48,10 +84,109 @@ Fixpoint check_ops (cfgs : list config) (sts : list state) (ops : list (N * op))
   | _, _ => false
   end.
 
+(* ---------- orchestrator with delta cache ---------- *)
+Definition dobs_ok (s : dstate) (x : dout) (b : dobs) : bool :=
+  res_eqb (xres x) (d_res b) && Bool.eqb (xflag x) (d_flag b) && option_eqb N.eqb (xdelta x) (d_delta b) &&
+  Z.eqb (items (drs s)) (d_items b) && Z.eqb (dnum s) (d_ditems b) && Z.eqb (total s) (d_bytes b) &&
+  list_eqb N.eqb (keys (lru (drs s))) (d_keys b) && list_eqb N.eqb (dkeys (dlru s)) (d_dkeys b).
+
+Fixpoint check_dops (cfg : config) (s : dstate) (ops : list dop) (bs : list dobs) : bool :=
+  match ops, bs with
+  | [], [] => true
+  | o :: r, b :: br =>
+      let '(s', x) := dstep cfg s o in
+      dobs_ok s' x b && check_dops cfg s' r br
+  | _, _ => false
+  end.
+
+(* ---------- schedules ---------- *)
+Definition ksize_of (t : list (key * N)) (k : key) : N :=
+  match find (fun p => N.eqb (fst p) k) t with Some p => snd p | None => 0 end.
+
+Definition mem_code (m : mem) : N := match m with Loading => 0 | Sized => 1 | Removed => 2 end.
+
+Definition vobs := (key * N * N * bool * bool)%type.
+Definition vobs_key (x : vobs) : key := fst (fst (fst (fst x))).
+
+Fixpoint ins_by {A} (f : A -> N) (x : A) (l : list A) : list A :=
+  match l with
+  | [] => [x]
+  | y :: r => if N.leb (f x) (f y) then x :: l else y :: ins_by f x r
+  end.
+Definition sort_by {A} (f : A -> N) (l : list A) : list A := fold_right (ins_by f) [] l.
+
+Definition cached_vals (s : estate) : list vobs :=
+  sort_by vobs_key
+    (flat_map (fun v => if cin v then [(ck v, mem_code (cm v), cby v, cloaded v, cerr v)] else []) (heap (eb s))).
+
+Definition vobs_eqb (a b : vobs) : bool :=
+  let '(k1, m1, b1, l1, e1) := a in let '(k2, m2, b2, l2, e2) := b in
+  N.eqb k1 k2 && N.eqb m1 m2 && N.eqb b1 b2 && Bool.eqb l1 l2 && Bool.eqb e1 e2.
+
+Definition thr_status (s : estate) (t : nat) : N :=
+  match nth_error (thr (eb s)) t with
+  | Some Idle => 0
+  | Some (GLoad i _) =>
+      match elock s i with Some t' => if Nat.eqb t' t then 1 else 2 | None => 9 end
+  | Some (PStore i _) => match elock s i with Some _ => 2 | None => 9 end
+  | Some (GFailUnlink _ _) => if ehold s then 3 else 9
+  | Some _ => 9          (* runnable in the middle of a call: never observed at a parking point *)
+  | None => 10
+  end.
+
+(* backing-store calls started for value i: the completed load plus the one in flight *)
+Definition loads_started (s : estate) (i : nat) : nat :=
+  (enl s i + match elock s i with Some _ => 1 | None => 0 end)%nat.
+Fixpoint loads_for (s : estate) (k : key) (i : nat) (h : list cval) : nat :=
+  match h with
+  | [] => O
+  | v :: r => ((if N.eqb (ck v) k then loads_started s i else O) + loads_for s k (S i) r)%nat
+  end.
+Fixpoint loads_all (s : estate) (i : nat) (h : list cval) : nat :=
+  match h with [] => O | _ :: r => (loads_started s i + loads_all s (S i) r)%nat end.
+
+Definition pairN_eqb (a b : N * N) : bool := N.eqb (fst a) (fst b) && N.eqb (snd a) (snd b).
+
+Definition sobs_ok (nthr : nat) (s : estate) (it by_ : Z) (vals : list vobs) (thrs : list N)
+                   (loads : list (key * N)) (nd : Z) (ds : list (dkey * N)) : bool :=
+  Z.eqb (gi (eb s)) it && Z.eqb (etotal s) by_ &&
+  list_eqb vobs_eqb (cached_vals s) vals &&
+  list_eqb N.eqb (map (thr_status s) (seq 0 nthr)) thrs &&
+  forallb (fun p => N.eqb (N.of_nat (loads_for s (fst p) 0 (heap (eb s)))) (snd p)) loads &&
+  N.eqb (N.of_nat (loads_all s 0 (heap (eb s)))) (fold_right N.add 0 (map snd loads)) &&
+  Z.eqb (edn s) nd && list_eqb pairN_eqb (sort_by fst (edl s)) ds.
+
+Definition res_of_lres (r : lres) : res := match r with LOk c => ROk c | LErr e => RErr e end.
+
+Definition peek_model (s : estate) (k : key) : res :=
+  match find_cached k (heap (eb s)) with
+  | Some i => match econt s i with Some (LOk c) => ROk c | _ => REmpty end
+  | None => REmpty
+  end.
+
+Fixpoint check_steps (ksz : key -> N) (nthr : nat) (s : estate) (steps : list sstep) : bool :=
+  match steps with
+  | [] => true
+  | SAct a :: r =>
+      match estep ksz s a with Some s' => check_steps ksz nthr s' r | None => false end
+  | SObs it by_ vals thrs loads nd ds :: r =>
+      sobs_ok nthr s it by_ vals thrs loads nd ds && check_steps ksz nthr s r
+  | SPeekR k x :: r => res_eqb (peek_model s k) x && check_steps ksz nthr s r
+  | SRes t x fl :: r =>
+      match find (fun e => Nat.eqb (ge_thr e) t) (elog s) with
+      | Some e => res_eqb (res_of_lres (ge_res e)) x && Bool.eqb (eflag s t) fl
+      | None => false
+      end && check_steps ksz nthr s r
+  end.
+
 Definition check (c : case) : bool :=
   match c with
   | CSeq cfgs ldt actt ops bs =>
       check_ops cfgs (map (fun _ => init (ld_of ldt) (act_of actt)) cfgs) ops bs
+  | CDelta cfg ldt actt ops bs =>
+      check_dops cfg (dinit (ld_of ldt) (act_of actt)) ops bs
+  | CSched nthr ksz ldt steps =>
+      check_steps (ksize_of ksz) nthr (einit nthr (ld_of ldt)) steps
   end.
 
 Definition mismatches (cs : list case) : list N := failing check cs.
